@@ -352,63 +352,75 @@ def exec_type(t, v, prep, rng, do_set=True):
         return {"stage": "build", "exc": X.exc_class(e), "msg": repr(e)[:400]}
     res["off"] = int(obj._offset); res["size"] = int(obj._size)
     conf = default_conf
-    for path in cls._gen_data_paths():
-        steps = steps_of(path)
-        for src, kernel in capi.methods_from_path(cls, path, conf):
-            if kernel is None: continue
-            name = kernel.c_name
-            act = action_of(cls, name)
-            if act is None: continue
-            nidx = sum(1 for a in kernel.args if re.fullmatch(r"i\d+", a.name or ""))
-            idxs = in_range_indices(rnd, t, obj, steps, 3) if nidx else [[]]
-            for idx in idxs:
-                if len(idx) != nidx: continue
-                call = {"name": name, "action": act, "path": steps, "idx": idx}
-                try:
-                    lt, lobj, addr = py_nav(t, obj, steps, idx)
-                    if addr is None:      # null reference on the way: the C accessor must not be called
-                        continue
-                    kw = {"obj": obj}
-                    for k, i in enumerate(idx): kw["i%d" % k] = i
-                    K = ctx.kernels[name]
-                    base = np.frombuffer(b.buffer, dtype="int8").ctypes.data
-                    if act == "get":
-                        r = K(**kw)
-                        pyv = xo.__dict__[lt["name"]]._from_buffer(b, addr)
-                        call["c"] = list(np.asarray(r, dtype=X.DT[lt["name"]]).tobytes()); call["py"] = list(np.asarray(pyv).tobytes())
-                    elif act == "getp":
-                        r = K(**kw)
-                        call["c"] = int(K.ffi_interface.cast("intptr_t", r)) - base; call["py"] = addr
-                    elif act == "len":
-                        call["c"] = int(K(**kw)); call["py"] = int(np.prod([int(s) for s in lobj._shape]))
-                    elif act == "typeid":
-                        call["c"] = int(K(**kw))
-                        tgt = lobj[1]
-                        call["py"] = -1 if tgt is None else [X.build(m).__name__ for m in lt["members"]].index(tgt.__class__.__name__)
-                    elif act == "member":
-                        tgt = lobj[1]
-                        if tgt is None: continue
-                        r = K(**kw)
-                        call["c"] = int(K.ffi_interface.cast("intptr_t", r)) - base; call["py"] = int(tgt._offset)
-                    elif act == "set" and do_set:
-                        import gen_values_local as GV
-                        newb = GV.scalar_bytes(rnd, lt["name"])
-                        before = snap(b)
-                        kw["value"] = X.np_scalar(lt["name"], newb)
-                        K(**kw)
-                        after = snap(b)
-                        n = len(newb)
-                        changed = [i for i in range(len(before)) if before[i] != after[i]]
-                        call["c"] = {"written": after[addr:addr + n], "changed_outside": [i for i in changed if not (addr <= i < addr + n)][:5]}
-                        call["py"] = {"written": list(newb), "changed_outside": []}
-                        # and what Python now reads at that element
-                        pyv = xo.__dict__[lt["name"]]._from_buffer(b, addr)
-                        call["py_read"] = list(np.asarray(pyv).tobytes())
-                    else:
-                        continue
-                except BaseException as e:  # noqa
-                    call["exc"] = X.exc_class(e); call["msg"] = repr(e)[:200]
-                res["calls"].append(call)
+
+    def run_calls(phase):
+        for path in cls._gen_data_paths():
+            steps = steps_of(path)
+            for src, kernel in capi.methods_from_path(cls, path, conf):
+                if kernel is None: continue
+                name = kernel.c_name
+                act = action_of(cls, name)
+                if act is None: continue
+                nidx = sum(1 for a in kernel.args if re.fullmatch(r"i\d+", a.name or ""))
+                idxs = in_range_indices(rnd, t, obj, steps, 3 if phase == "first" else 1) if nidx else [[]]
+                for idx in idxs:
+                    if len(idx) != nidx: continue
+                    call = {"name": name, "action": act, "path": steps, "idx": idx, "phase": phase}
+                    try:
+                        lt, lobj, addr = py_nav(t, obj, steps, idx)
+                        if addr is None:      # null reference on the way: the C accessor must not be called
+                            continue
+                        kw = {"obj": obj}
+                        for k, i in enumerate(idx): kw["i%d" % k] = i
+                        K = ctx.kernels[name]
+                        base = np.frombuffer(b.buffer, dtype="int8").ctypes.data
+                        if act == "get":
+                            r = K(**kw)
+                            pyv = xo.__dict__[lt["name"]]._from_buffer(b, addr)
+                            call["c"] = list(np.asarray(r, dtype=X.DT[lt["name"]]).tobytes()); call["py"] = list(np.asarray(pyv).tobytes())
+                        elif act == "getp":
+                            r = K(**kw)
+                            call["c"] = int(K.ffi_interface.cast("intptr_t", r)) - base; call["py"] = addr
+                        elif act == "len":
+                            call["c"] = int(K(**kw)); call["py"] = int(np.prod([int(s) for s in lobj._shape]))
+                        elif act == "typeid":
+                            call["c"] = int(K(**kw))
+                            tgt = lobj[1]
+                            call["py"] = -1 if tgt is None else [X.build(m).__name__ for m in lt["members"]].index(tgt.__class__.__name__)
+                        elif act == "member":
+                            tgt = lobj[1]
+                            if tgt is None: continue
+                            r = K(**kw)
+                            call["c"] = int(K.ffi_interface.cast("intptr_t", r)) - base; call["py"] = int(tgt._offset)
+                        elif act == "set" and do_set:
+                            import gen_values_local as GV
+                            newb = GV.scalar_bytes(rnd, lt["name"])
+                            before = snap(b)
+                            kw["value"] = X.np_scalar(lt["name"], newb)
+                            K(**kw)
+                            after = snap(b)
+                            n = len(newb)
+                            changed = [i for i in range(len(before)) if before[i] != after[i]]
+                            call["c"] = {"written": after[addr:addr + n], "changed_outside": [i for i in changed if not (addr <= i < addr + n)][:5]}
+                            call["py"] = {"written": list(newb), "changed_outside": []}
+                            # and what Python now reads at that element
+                            pyv = xo.__dict__[lt["name"]]._from_buffer(b, addr)
+                            call["py_read"] = list(np.asarray(pyv).tobytes())
+                        else:
+                            continue
+                    except BaseException as e:  # noqa
+                        call["exc"] = X.exc_class(e); call["msg"] = repr(e)[:200]
+                    res["calls"].append(call)
+
+    run_calls("first")
+    # the same accessors on the same object after the buffer has grown (its storage is replaced):
+    # anything the context remembered about the old storage is now stale
+    try:
+        b.grow(max(int(b.capacity), 64))
+        res["grown_to"] = int(b.capacity)
+        run_calls("after-growth")
+    except BaseException as e:  # noqa
+        res["errors"].append("growth: " + repr(e)[:200])
     # the whole object must still read as a consistent object after all the sets
     try:
         res["final_read"] = X.readback(t, obj)
